@@ -13,16 +13,24 @@
 //            res = (panicked errkind consumed wanted maxcap)            after i bytes, lo <= i < hi
 // input    (12 fmt #template #tail lo hi)                              length field := L, lo <= L < hi
 // observed ((dec) (unzip) (res ...))
+// input    (13 fmt #stream)                                            a qnet.TcpConn reading from a loopback
+// observed (nerr errkind (pkt ...) closed timedout late)                connection that is sent the stream, then EOF
 // panicked = 2 in a res: the decoder was not run (memory guard, see guard()).
 package main
 
 import (
 	"encoding/binary"
+	"errors"
 	"hash/crc32"
 	"io"
 	"log"
+	"net"
 	"runtime"
 	"runtime/debug"
+	"time"
+
+	"qchen.fun/fatchoy"
+	"qchen.fun/fatchoy/qnet"
 
 	"qchen.fun/fatchoy/codec"
 	"qchen.fun/fatchoy/packet"
@@ -295,8 +303,100 @@ func runSweep(in Sx) Sx {
 	return List(ListOf(nil), unzipT.OSx(), ListOf(rs))
 }
 
+// runConn: the reader pump of a real connection (qnet/tcp_conn.go readPump/readPacket).  The peer
+// writes the stream and half-closes; observed are the frames delivered, the errors notified, and
+// whether the peer saw the connection closed.  Scenarios that do not finish within generous
+// time limits are reported as timed out (inconclusive), never as a failure.
+var connTimeouts int
+
+func runConn(in Sx) Sx {
+	ver, data := in.At(1).AsInt(), in.At(2).AsBytes()
+	timedOut := func() Sx {
+		connTimeouts++
+		return List(Int(0), Int(0), ListOf(nil), Int(0), Int(1), Int(0))
+	}
+	ln, err := net.Listen("tcp", "127.0.0.1:0")
+	if err != nil {
+		return timedOut()
+	}
+	defer ln.Close()
+	cli, err := net.Dial("tcp", ln.Addr().String())
+	if err != nil {
+		return timedOut()
+	}
+	defer cli.Close()
+	srv, err := ln.Accept()
+	if err != nil {
+		return timedOut()
+	}
+	defer srv.Close()
+	errCh := make(chan error, 16)
+	incoming := make(chan fatchoy.IPacket, 256)
+	tc := qnet.NewTcpConn(fatchoy.NodeID(1), srv, NewEncoder(ver, 0), errCh, incoming, 8, nil)
+	tc.Go(fatchoy.EndpointReader)
+	if len(data) > 0 {
+		if _, err := cli.Write(data); err != nil {
+			return timedOut()
+		}
+	}
+	cli.(*net.TCPConn).CloseWrite()
+	var first error
+	select {
+	case first = <-errCh:
+	case <-time.After(30 * time.Second):
+		return timedOut()
+	}
+	kind := 9
+	var qe *qnet.Error
+	if errors.As(first, &qe) {
+		kind = ErrKind(qe.Err)
+	}
+	var pkts []Sx
+	drain := func() int {
+		n := 0
+		for {
+			select {
+			case p := <-incoming:
+				if pp, ok := p.(*packet.Packet); ok {
+					pkts = append(pkts, PacketSx(pp, BodyToSx(pp.Body_)))
+				}
+				n++
+			default:
+				return n
+			}
+		}
+	}
+	drain()
+	delivered := len(pkts)
+	// the peer must see the connection closed
+	closed := 0
+	cli.SetReadDeadline(time.Now().Add(30 * time.Second))
+	var buf [16]byte
+	if _, rerr := cli.Read(buf[:]); rerr == io.EOF {
+		closed = 1
+	} else if ne, ok := rerr.(net.Error); ok && ne.Timeout() {
+		return timedOut()
+	}
+	// nothing may follow the first error
+	time.Sleep(20 * time.Millisecond)
+	late := drain()
+	nerr := 1
+	for more := true; more; {
+		select {
+		case <-errCh:
+			nerr++
+			late++
+		default:
+			more = false
+		}
+	}
+	return List(Int(int64(nerr)), Int(int64(kind)), ListOf(pkts[:delivered]), Int(int64(closed)), Int(0), Int(int64(late)))
+}
+
 func run(in Sx) Sx {
 	switch in.At(0).Int64() {
+	case 13:
+		return runConn(in)
 	case 10:
 		return runSingle(in)
 	case 11:
@@ -624,6 +724,46 @@ func gen(a Args, out *Out) {
 		}
 		emit(kind, List(Int(10), Int(int64(fmtc)), Int(int64(cidx)), Uint(keyseed), Bytes(data), genSizes(rng), Int(int64(nreads)), Int(int64(expect))))
 	}
+	// 4. the reader pump of a real connection: valid frames, something bad (or just the end of the
+	// stream), more valid frames that must never be delivered
+	nconn := 40
+	if thorough {
+		nconn = 400
+	}
+	for i := 0; i < nconn; i++ {
+		ver := rng.PickInt(1, 2)
+		var data []byte
+		for k := rng.Intn(4); k > 0; k-- {
+			data = append(data, validFrame(rng, ver, 0, 0, rng.Intn(60), false)...)
+		}
+		kind := "conn-eof"
+		switch rng.Intn(6) {
+		case 0:
+		case 1:
+			data = append(data, rng.Bytes(1+rng.Intn(40))...)
+			kind = "conn-garbage"
+		case 2:
+			data = append(data, craft(ver, 1, 0, 0, 7, 8, 9, rng.Bytes(rng.Intn(30)), -1, true)...)
+			kind = "conn-badcrc"
+		case 3:
+			data = append(data, setLength(ver, rng.Intn(HeaderSize(ver)), validFrame(rng, ver, 0, 0, 20, false))...)
+			kind = "conn-short-length"
+		case 4:
+			f := validFrame(rng, ver, 0, 0, 10+rng.Intn(40), false)
+			data = append(data, f[:1+rng.Intn(len(f)-1)]...)
+			kind = "conn-truncated"
+		case 5:
+			data = append(data, craft(ver, 1, 0x02, 0, 7, 8, 9, rng.Bytes(1+rng.Intn(30)), -1, false)...)
+			kind = "conn-needs-decrypt"
+		}
+		if kind != "conn-eof" && kind != "conn-truncated" {
+			for k := rng.Intn(3); k > 0; k-- {
+				data = append(data, validFrame(rng, ver, 0, 0, rng.Intn(40), false)...)
+			}
+		}
+		emit(kind, List(Int(13), Int(int64(ver)), Bytes(data)))
+	}
+	out.CountN("conn-timeouts(inconclusive)", connTimeouts)
 	out.CountN("alloc-measured(MemStats)", allocMeasured)
 	out.CountN("alloc-inconclusive(MemStats)", allocInconclusive)
 	if hugeSeen {
